@@ -78,7 +78,7 @@ def sig_worker(args):
             raise RuntimeError('key %s has type %s, the harness table says %s' % (kfile, key.key_type, kind))
         # (openssl pkeyutl -rawin cannot read an empty file: EdDSA messages are non-empty)
         msg = bytes(rng.randrange(256) for _ in range(rng.choice([0 if kind != 'eddsa' else 3, 1, 31, 32, 64, 100, 200])))
-        base = dict(key=kname, kind=kind, scheme=scheme, hash=h, slen=slen, msg=msg.hex())
+        base = dict(kname=kname, kind=kind, scheme=scheme, hash=h, slen=slen, msg=msg.hex())
 
         def rec(cls, want, got, **kw):
             d = dict(base)
@@ -104,6 +104,12 @@ def sig_worker(args):
             rec('openssl-sign', True, 'openssl-could-not-sign')
         else:
             rec('tlslite-verifies-openssl-sig', True, U.tl_verify(key, kind, osig, msg, scheme, h, slen), osig=osig.hex())
+        # ---- the same key object signs again (blinding state, nonce handling): still verifiable by both
+        for j in (1, 2):
+            mj = msg + bytes([j])
+            sj = U.tl_sign(key, kind, mj, scheme, h, slen)
+            rec('repeat-sign-%d-self-verify' % j, True, U.tl_verify(key, kind, sj, mj, scheme, h, slen), sig=sj.hex(), msg=mj.hex())
+            rec('repeat-sign-%d-openssl' % j, True, ossl.verify(kfile, kind, sj, mj, scheme, h, slen), sig=sj.hex(), msg=mj.hex())
         # ---- mutations: all must be rejected
         muts = []
         nb = len(sig) * 8
@@ -179,11 +185,35 @@ def sig_worker(args):
                     openssl=ossl.verify(kfile, kind, sg, msg, scheme, h, vs))
     except Exception as e:  # noqa
         import traceback
-        out.append(dict(key=kname, kind=kind, scheme=scheme, hash=h, slen=slen, cls='worker-error', want=True,
+        out.append(dict(kname=kname, kind=kind, scheme=scheme, hash=h, slen=slen, cls='worker-error', want=True,
                         got='exc:%s:%s' % (type(e).__name__, e), tb=traceback.format_exc()[-1200:]))
     finally:
         ossl.close()
     return out
+
+
+def dsa_generate_worker(seed):
+    """Python_DSAKey.generate(): do the generated parameters satisfy the hypotheses of
+    dsa_sign_verifies, and do signatures made with the generated key verify?"""
+    import loop
+    from tlslite.utils.python_dsakey import Python_DSAKey
+    rnd = loop.DetRandom(seed).install()
+    try:
+        k = Python_DSAKey.generate(1024, 160)
+        ok = 0
+        msgs = [b'generated key message %d' % i for i in range(4)]
+        for m in msgs:
+            try:
+                ok += bool(k.hashAndVerify(k.hashAndSign(m, 'sha1'), m, 'sha1'))
+            except Exception:  # noqa
+                pass
+        return dict(p=int(k.p), q=int(k.q), g=int(k.g), x=int(k.private_key), y=int(k.public_key),
+                    q_divides_p_minus_1=(int(k.p) - 1) % int(k.q) == 0, g_order_divides_q=pow(int(k.g), int(k.q), int(k.p)) == 1,
+                    verified=ok, signed=len(msgs), seed=seed)
+    except Exception as e:  # noqa
+        return dict(error='%s: %s' % (type(e).__name__, e), seed=seed)
+    finally:
+        rnd.uninstall()
 
 
 def odd_key_worker(which):
@@ -710,6 +740,7 @@ def run(ctx):
                 sig_tasks.append((kname, kfile, kind, scheme, h, slen, rng.randrange(2 ** 31), 6 if quick else 10 ** 9, not quick))
         a_sig = pool.map_async(sig_worker, sig_tasks, chunksize=1)
         a_odd = pool.map_async(odd_key_worker, ['rsa704', 'rsa1025'])
+        a_dsagen = pool.map_async(dsa_generate_worker, [rng.randrange(2 ** 31) for _ in range(2 if quick else 8)])
         kex_tasks = []
         for ver in ((3, 3), (3, 4)):
             for gi in ((0, 1, 10) if quick else (0, 1, 2, 3, 4, 10, 11, 12, 13)):
@@ -798,14 +829,14 @@ def run(ctx):
                 nsig += 1
                 cls = r['cls']
                 ctx.count('sign-verify-openssl', 1, [(r['kind'], r.get('scheme'), r.get('hash'), cls.split(':')[0] if cls.startswith('mut') else cls)],
-                          sample={k: r[k] for k in ('key', 'scheme', 'hash', 'cls', 'want', 'got')} if nsig % 997 == 1 else None)
+                          sample={k: r[k] for k in ('kname', 'scheme', 'hash', 'cls', 'want', 'got')} if nsig % 997 == 1 else None)
                 got = r['got']
                 if cls == 'worker-error':
-                    tie_broken = tie_broken or 'signature worker failed for %s: %s' % (r['key'], got)
+                    tie_broken = tie_broken or 'signature worker failed for %s: %s' % (r['kname'], got)
                     continue
                 if r['want'] is True and got is not True:
                     found = ctx.violation('sig-roundtrip:%s:%s:%s' % (r['kind'], r.get('scheme'), cls),
-                                  '%s key %s scheme=%s hash=%s: %s gives %r' % (r['kind'], r['key'], r.get('scheme'), r.get('hash'), cls, got),
+                                  '%s key %s scheme=%s hash=%s: %s gives %r' % (r['kind'], r['kname'], r.get('scheme'), r.get('hash'), cls, got),
                                   dict(r, how='see harness/props/C10.py sig_worker')) or found
                 if r['want'] is False and got is True:
                     found = ctx.violation('sig-accepted:%s:%s' % (r['kind'], cls.split(':', 1)[1]),
@@ -830,6 +861,17 @@ def run(ctx):
                                   % ('raises ' + r.get('exc', '?') if not r.get('signed') else 'works', r.get('openssl_self'),
                                      'accepted' if r.get('tlslite_accepts_openssl_sig') is True else 'rejected'),
                                   dict(r, key_file='corpus/C10/rsa1025.pem', how='key.hashAndSign(msg,"pss","sha256",32); key.hashAndVerify(osig,msg,"pss","sha256",32)')) or found
+        for r in a_dsagen.get(900):
+            ctx.count('dsa-generate', 1, [('verified', r.get('verified'), r.get('q_divides_p_minus_1'))], sample={k: str(v)[:60] for k, v in r.items()})
+            if 'error' in r:
+                tie_broken = tie_broken or 'Python_DSAKey.generate failed: ' + r['error']
+            elif r['verified'] != r['signed'] or not r['g_order_divides_q']:
+                found = ctx.violation('dsa-generate-unusable',
+                                      'Python_DSAKey.generate(1024,160): q divides p-1: %s, g^q = 1 mod p: %s; %d of %d signatures made with the '
+                                      'generated key verify under its own public key' % (r['q_divides_p_minus_1'], r['g_order_divides_q'],
+                                                                                         r['verified'], r['signed']),
+                                      dict(r, how='loop.DetRandom(seed).install(); k = Python_DSAKey.generate(1024,160); '
+                                                  'k.hashAndVerify(k.hashAndSign(m,"sha1"), m, "sha1")')) or found
         # ---------------- key exchange classes
         nk = 0
         for recs in a_kex.get(900):
@@ -856,6 +898,8 @@ def run(ctx):
             if r['client'] == ('ok',) and r['server'] == ('ok',) or under == ('ok',):
                 found = ctx.violation('bad-share-accepted-live:%s:%s' % (t[1], t[3]), 'live %s handshake: the %s accepts peer share class %s of %s'
                               % (t[0], t[2], t[3], t[1]), dict(r, share=t[4].hex() if isinstance(t[4], bytes) else t[4])) or found
+            elif under == ('RemoteAlert', 80):
+                tie_broken = tie_broken or 'live bad-share case %s: the wrapped peer failed by itself (internal_error) before the share was processed' % (t[:4],)
             elif t[3] != 'compressed-not-offered' and under not in (('LocalAlert', 47), ('LocalAlert', 50)) and \
                     not (under[0] == 'Other' and under[1] in ('TLSIllegalParameterException', 'TLSDecodeError')):
                 found = ctx.violation('bad-share-not-refused-at-kex:%s:%s' % (t[1], t[3]),
@@ -950,6 +994,28 @@ def replay(ctx, path):
         out = L.run_fault_case((r['flavour'], r['fault_at'], 1, r.get('fault_kind', 'plus1')))
         print(out, L.judge_fault(out))
         return 0 if L.judge_fault(out)[0] != 'violation' else 1
+    if 'q_divides_p_minus_1' in r:
+        out = dsa_generate_worker(r['seed'])
+        print({k: str(v)[:70] for k, v in out.items()})
+        return 0 if out.get('verified') == out.get('signed') and out.get('g_order_divides_q') else 1
+    if 'role' in r and 'group' in r:
+        import c10_live as L
+        share = r.get('share')
+        bad = bytes.fromhex(share) if isinstance(share, str) else share
+        out = L.run_share_case((tuple(r['ver']), r['group'], r['role'], r['cls'], bad, 1))
+        print(out)
+        under = out.get('server') if r['role'] == 'server' else out.get('client')
+        return 1 if under == ('ok',) else 0
+    if str(r.get('what', '')).split(':')[0] in ('ffdh', 'x25519', 'x448', 'ec') and 'cls' in r and 'got' in r:
+        if r['what'] == 'ffdh':
+            task = ('ffdh', r['group'], tuple(r['ver']))
+        elif r['what'] in ('x25519', 'x448'):
+            task = ('x', r['what'] == 'x448', tuple(r['ver']))
+        else:
+            task = ('ec', r['what'].split(':')[1], tuple(r['ver']))
+        bad = [x for x in kex_worker((task, 1)) if x['cls'] == r['cls']]
+        print(bad)
+        return 1 if any(x['want'] == 'refused' and x['got'][0] == 'ok' for x in bad) else 0
     if r.get('key_file'):
         key = U.load_key(os.path.join(vlib.ROOT, r['key_file']))
         msg = bytes.fromhex(r['msg'])
@@ -961,7 +1027,7 @@ def replay(ctx, path):
         print('tlslite accepts the short-padding signature:', v)
         return 1 if v is True else 0
     if 'mut_sig' in r or 'sig' in r:
-        kfile = dict((k[0], k[1]) for k in U.KEYS)[r['key']]
+        kfile = dict((k[0], k[1]) for k in U.KEYS)[r['kname']]
         key = U.load_key(kfile)
         sig = bytes.fromhex(r.get('mut_sig') or r['sig'])
         msg = bytes.fromhex(r.get('mut_msg') or r['msg'])
